@@ -120,3 +120,14 @@ contract(T, '_get_chunk_bounds', props=['C16'],
              ('strictly-increasing', 'increasing(result)'),
              ('never-further-apart-than-chunk-length', 'all(result[j + 1] - result[j] <= chunk_size for j in range(len(result) - 1))'),
              ('contains-every-file-boundary', 'all(any(result[j] == psum(arr_sizes, m) for j in range(len(result))) for m in range(len(arr_sizes) + 1))')])
+
+# data_chunk: "the with-overlap / without-overlap parts of a 4-tuple chunk, or the 2-tuple itself, select exactly data[i:j]"
+_SLICE = lambda i, j: ('len(result) == max(norm_stop(%s, len(data)) - norm_start(%s, len(data)), 0) and '
+                       'all(result[k] == data[norm_start(%s, len(data)) + k] for k in range(len(result)))' % (j, i, i))
+contract(A, 'data_chunk', variant='pair', props=['C16'], params={'data': 'arr[int]', 'chunk': 'tuple[int,int]', 'with_overlap': 'bool'}, result='arr[int]',
+    ensures=[('the-slice-between-the-two-bounds', _SLICE('chunk[0]', 'chunk[1]'))])
+contract(A, 'data_chunk', variant='quad', props=['C16'], params={'data': 'arr[int]', 'chunk': 'tuple[int,int,int,int]', 'with_overlap': 'bool'}, result='arr[int]',
+    ensures=[('overlapping-bounds-when-asked', 'implies(with_overlap, %s)' % _SLICE('chunk[0]', 'chunk[1]')),
+             ('kept-bounds-otherwise', 'implies(not with_overlap, %s)' % _SLICE('chunk[2]', 'chunk[3]'))])
+contract(A, 'data_chunk', variant='other-length', props=['C16'], params={'data': 'arr[int]', 'chunk': 'tuple[int,int,int]', 'with_overlap': 'bool'},
+    raises=[('ValueError', 'True', 'iff')], ensures=[])
